@@ -252,7 +252,7 @@ func C02(sp *spec.Spec, ex *rt.Exchange) *Verdict {
 		return v
 	}
 	if ex.Panic != "" {
-		v.add("panic:"+panicSite(ex.Panic)+tagSuffix(Explain(sp, m, ex.Case.Sent)), "panic while delivering a valid payload: %s", firstLine(ex.Panic))
+		v.add(mkKey("panic", "panic:"+panicSite(ex.Panic), "", Explain(sp, m, ex.Case.Sent)), "panic while delivering a valid payload: %s", firstLine(ex.Panic))
 		return v
 	}
 	if ex.StubErr != "" {
@@ -260,7 +260,7 @@ func C02(sp *spec.Spec, ex *rt.Exchange) *Verdict {
 	}
 	if ex.StubIn == nil {
 		class, text := describeErr(ex)
-		v.add("valid-payload-not-delivered:"+class+tagSuffix(Explain(sp, m, ex.Case.Sent)), "valid payload %s did not reach the service method: %s", vtree.Show(ex.Case.Sent), text)
+		v.add(mkKey("rejected:"+notDeliveredName(ex), "valid-payload-not-delivered:"+class, "", Explain(sp, m, ex.Case.Sent)), "valid payload %s did not reach the service method: %s", vtree.Show(ex.Case.Sent), text)
 		return v
 	}
 	if ex.StubCalls != 1 {
@@ -400,7 +400,7 @@ func C03(sp *spec.Spec, ex *rt.Exchange) *Verdict {
 		v.add("write-header-calls", "WriteHeader called %d times", ex.WireResp.WriteHeaders)
 	}
 	if ex.ClientOut.Err != nil {
-		v.add("valid-result-refused-by-client:"+ex.ClientOut.Err.Name+tagSuffix(ExplainResult(sp, m, oc.Result)), "client returned an error for a valid result %s: [%s] %s", vtree.Show(oc.Result), ex.ClientOut.Err.GoType, trunc(ex.ClientOut.Err.Message, 300))
+		v.add(mkKey("refused:"+ex.ClientOut.Err.Name, "valid-result-refused-by-client:"+ex.ClientOut.Err.Name, "", ExplainResult(sp, m, oc.Result)), "client returned an error for a valid result %s: [%s] %s", vtree.Show(oc.Result), ex.ClientOut.Err.GoType, trunc(ex.ClientOut.Err.Message, 300))
 		return v
 	}
 	if m.Result == nil {
@@ -438,7 +438,11 @@ func C03(sp *spec.Spec, ex *rt.Exchange) *Verdict {
 		if strings.Count(d.Path, ".")+strings.Count(d.Path, "[")+strings.Count(d.Path, "{") > 1 {
 			nested = ":nested"
 		}
-		v.add(fmt.Sprintf("result-mismatch:%s:%s%s:%s:%s", loc, kind, nested, diffClass(d), valClass(d.Want)), "result attribute differs at %s", d.String())
+		cls := "mismatch"
+		if loc == "header" && strings.HasPrefix(kind, "array") {
+			cls = "mismatch:header-array"
+		}
+		v.add(mkKey(cls, "result-mismatch", fmt.Sprintf("%s:%s%s:%s:%s", loc, kind, nested, diffClass(d), valClass(d.Want)), ExplainResult(sp, m, oc.Result)), "result attribute differs at %s", d.String())
 	}
 	return v
 }
@@ -628,4 +632,11 @@ func ExplainResult(sp *spec.Spec, m *spec.Method, result any) []string {
 	}
 	sortStrings(tags)
 	return tags
+}
+
+func notDeliveredName(ex *rt.Exchange) string {
+	if ex.WireResp != nil {
+		return errorNameOf(ex.WireResp)
+	}
+	return "none"
 }
